@@ -124,6 +124,40 @@ Definition encode (acc : Z -> Z) (rooted : option bool) (t : tree) : enc_result 
   mkEnc t2 rooted1 edges (map snd edges).
 
 (* ---------------------------------------------------------------------------------------- *)
+(* encode_bipartitions(suppress_unifurcations=su, collapse_unrooted_basal_bifurcation=cb).
+   su = false: a node with one child is treated like any inner node (kept, gets a bipartition whose
+   leafset is its child's); cb = false: the basal bifurcation is left alone.                        *)
+
+Definition enc_visit_f (su : bool) (acc : Z -> Z) (i : Z) (x l e : option Z)
+  (rs : list (tree * Z * list (Z * Z))) : tree * Z * list (Z * Z) :=
+  if su then enc_visit acc i x l e rs
+  else
+    match rs with
+    | [] =>
+      let m := match x with Some tx => taxon_bitmask acc tx | None => 0 end in
+      (T i x l e [], m, [(i, m)])
+    | _ =>
+      let m := fold_left Z.lor (map (fun r => snd (fst r)) rs) 0 in
+      (T i x l e (map (fun r => fst (fst r)) rs), m, concat (map snd rs) ++ [(i, m)])
+    end.
+
+Fixpoint enc_node_f (su : bool) (acc : Z -> Z) (t : tree) : tree * Z * list (Z * Z) :=
+  match t with
+  | T i x l e ks => enc_visit_f su acc i x l e (map (enc_node_f su acc) ks)
+  end.
+
+Definition encode_f (su cb : bool) (acc : Z -> Z) (rooted : option bool) (t : tree) : enc_result :=
+  let '(t1, rooted1) :=
+    if cb && negb (is_true rooted) && (nkids t =? 2) then
+      let '(t', changed) := collapse_basal t in
+      (t', if changed then Some false else rooted)
+    else (t, rooted) in
+  let '(t2, _, entries) := enc_node_f su acc t1 in
+  let tree_mask := snd (last entries (0, 0)) in
+  let edges := map (fun e => (fst e, (snd e, compile_split rooted1 tree_mask (snd e)))) entries in
+  mkEnc t2 rooted1 edges (map snd edges).
+
+(* ---------------------------------------------------------------------------------------- *)
 (* Bipartition(leafset_bitmask=a, tree_leafset_bitmask=f, is_rooted=r)  for f <> 0:
    (leafset, split) after the compile in __init__                                            *)
 
@@ -280,18 +314,19 @@ Definition bip_obs_eqb (x y : bip_obs) : bool :=
   Bool.eqb (p_leafset_nested_int x) (p_leafset_nested_int y).
 
 Inductive case : Type :=
-(* encode_bipartitions once (twice = false) or two times in a row (twice = true) on tree t with
+(* encode_bipartitions(suppress_unifurcations=su, collapse_unrooted_basal_bifurcation=cb) once
+   (twice = false) or two times in a row (twice = true) on tree t with
    accession map acc; probes: masks a for which Bipartition(leafset_bitmask=a,
    tree_leafset_bitmask=<tree mask>, is_rooted=<rooted>) was handed to is_compatible_with_bipartition *)
-| CEnc (acc : list (Z * Z)) (rooted : option bool) (t : tree) (twice : bool)
+| CEnc (su cb : bool) (acc : list (Z * Z)) (rooted : option bool) (t : tree) (twice : bool)
        (expected : enc_result) (probes : list (Z * bool))
 | CBits (a b f : Z) (expected : bits_obs)
 | CBip (a b f : Z) (r : option bool) (expected : bip_obs)
 | CFrom (ns : list (Z * Z)) (count : Z) (rooted : option bool) (splits : list Z) (expected : mtree).
 
-Definition enc_run (acc : list (Z * Z)) (rooted : option bool) (t : tree) (twice : bool) : enc_result :=
-  let r := encode (lookup acc) rooted t in
-  if twice then encode (lookup acc) (r_rooted r) (r_tree r) else r.
+Definition enc_run (su cb : bool) (acc : list (Z * Z)) (rooted : option bool) (t : tree) (twice : bool) : enc_result :=
+  let r := encode_f su cb (lookup acc) rooted t in
+  if twice then encode_f su cb (lookup acc) (r_rooted r) (r_tree r) else r.
 
 Definition probe_run (r : enc_result) (a : Z) : bool :=
   let fill := fst (last (r_enc r) (0, 0)) in
@@ -300,8 +335,8 @@ Definition probe_run (r : enc_result) (a : Z) : bool :=
 
 Definition case_ok (c : case) : bool :=
   match c with
-  | CEnc acc rooted t twice expected probes =>
-    let r := enc_run acc rooted t twice in
+  | CEnc su cb acc rooted t twice expected probes =>
+    let r := enc_run su cb acc rooted t twice in
     enc_result_eqb r expected &&
     forallb (fun p => Bool.eqb (probe_run r (fst p)) (snd p)) probes
   | CBits a b f expected => bits_obs_eqb (bits_run a b f) expected
@@ -318,8 +353,8 @@ Inductive shown : Type :=
 
 Definition case_show (c : case) : shown :=
   match c with
-  | CEnc acc rooted t twice _ probes =>
-    let r := enc_run acc rooted t twice in SEnc r (map (fun p => probe_run r (fst p)) probes)
+  | CEnc su cb acc rooted t twice _ probes =>
+    let r := enc_run su cb acc rooted t twice in SEnc r (map (fun p => probe_run r (fst p)) probes)
   | CBits a b f _ => SBits (bits_run a b f)
   | CBip a b f r _ => SBip (bip_run a b f r)
   | CFrom ns count rooted splits _ => SFrom (from_splits ns count rooted splits)
